@@ -126,5 +126,30 @@ func TestVerifReplayLex(t *testing.T) {
 		return true
 	}
 	rec("", maxLen)
-	fmt.Printf("STANDIN inputs=%d bound=\"all strings of at most %d symbols over a %d-symbol class alphabet, 3 scan modes\"\n", n, maxLen, len(verifLexAlphabet))
+	// heredocs need more symbols than the exhaustive bound allows: every combination of opener,
+	// line ending, body and padding around the closing marker (the scanner accepts any Unicode space
+	// there), on top of an attribute
+	for _, open := range []string{"<<EOT", "<<-EOT"} {
+		for _, nl := range []string{"\n", "\r\n"} {
+			for _, body := range []string{"", "x", "  x ${a} ", "é́", "EOT x"} {
+				for _, lead := range []string{"", " ", "\t", "\u00a0", "\u3000"} {
+					for _, trail := range []string{"", " ", "\t", "\u00a0", "\u3000", "\f", " \u00a0"} {
+						for _, after := range []string{"", "b = 1" + nl} {
+							src := "a = " + open + nl
+							if body != "" {
+								src += body + nl
+							}
+							src += lead + "EOT" + trail + nl + after
+							n++
+							if msg := verifLexCheck(src, scanNormal); msg != "" {
+								t.Errorf("REPLAY-FAIL func=hclsyntax.scanTokens mode=%d input=%q: %s", scanNormal, src, msg)
+								return
+							}
+						}
+					}
+				}
+			}
+		}
+	}
+	fmt.Printf("STANDIN inputs=%d bound=\"all strings of at most %d symbols over a %d-symbol class alphabet, 3 scan modes, plus 2800 heredoc layouts\"\n", n, maxLen, len(verifLexAlphabet))
 }
